@@ -795,6 +795,67 @@ Section Count2.
   Theorem run_sel sched :
     Forall (selPev dom) (snd (run P sched)) /\ SI (fst (run P sched)).
   Proof. destruct (exec_SI sched (init P) SI_init) as [A B]. split; auto. Qed.
+
+  (* ---------------------------------------------------------------- the model's nesting limit
+     (EvRaise n 9: a postponed list that would have to be replayed two levels deep) is never reached,
+     for every schedule - also after finished() (C09 proves it before the first finished()) *)
+  Definition no9 (e : dev) : Prop := forall n, e <> EvRaise n 9.
+
+  Lemma own_no9 d e : Forall (fun ev => ev_node ev = d) e -> ~ In (EvRaise d 9) e -> Forall no9 e.
+  Proof.
+    intros Hown Hn. apply Forall_forall. intros ev Hin n ->.
+    rewrite Forall_forall in Hown. specialize (Hown _ Hin). simpl in Hown. subst. contradiction.
+  Qed.
+
+  Lemma recv_no9 cf gm a0 b0 m q :
+    KI cf gm -> w_running (nodes cf b0) = true -> chan cf a0 b0 = m :: q ->
+    Forall no9 (snd (dba_recv b0 (stt cf b0) a0 m)).
+  Proof.
+    intros HK Hr Hc.
+    pose proof (dba_recv_ok cs ncs dom infinity maxd orc0 b0 (stt cf b0) a0 m) as H.
+    assert (L : linv (stt cf b0) -> Forall no9 (snd (dba_recv b0 (stt cf b0) a0 m))).
+    { intros HL. destruct (dba_recv b0 (stt cf b0) a0 m) as [[s' o] e]. destruct H as [[Hown _] H].
+      destruct (H HL) as [H9 _]. simpl. now apply own_no9 with b0. }
+    destruct (d_mode (stt cf b0)) eqn:Em; try (apply L; unfold linv; rewrite Em; exact I).
+    - (* ok mode *)
+      destruct (K_node _ _ _ _ _ HK b0 Hr) as [_ Hn]. rewrite Em in Hn. destruct Hn as [Hnd [Hincl Hbr]].
+      destruct Hbr as [[_ [Hpok _]] | [Hst Hne]]; [apply L; unfold linv; rewrite Em; exact Hpok|].
+      destruct m as [v|x y z|].
+      + exfalso. pose proof (head_ok_new cs ncs orc0 cf gm HK a0 b0 v q Hc Em) as Hg.
+        rewrite (got_okm _ _ Em) in Hg.
+        assert (In a0 (map fst (d_nvals (stt cf b0)))); [|apply zmem_true_in in H0; congruence].
+        apply (full_view _ (nbrs b0)); auto.
+        * rewrite map_length. exact Hst.
+        * apply (chan_nbr cs ncs orc0 cf gm HK _ _ _ _ Hc).
+      + unfold M_Dba.dba_recv. rewrite Em. constructor.
+      + unfold M_Dba.dba_recv. rewrite Em. repeat constructor. intros n E. discriminate.
+    - (* improve mode *)
+      destruct (K_node _ _ _ _ _ HK b0 Hr) as [_ Hn]. rewrite Em in Hn.
+      destruct Hn as [_ [_ [_ [Hpimp _]]]]. apply L. unfold linv. rewrite Em. exact Hpimp.
+  Qed.
+
+  Lemma step_no9 cf a : SI cf -> Forall no9 (snd (step P cf a)).
+  Proof.
+    intros [[gm HK] HW]. destruct a as [n0|a0 b0]; simpl.
+    - destruct (w_running (nodes cf n0)) eqn:Ru; [constructor|].
+      pose proof (K_idle _ _ _ _ _ HK n0 Ru) as Hinit. unfold stt in Hinit. rewrite Hinit.
+      pose proof (dba_start_ok cs ncs dom infinity orc0 n0 (dba_init n0)) as H.
+      destruct (dba_start n0 (dba_init n0)) as [[s' o] e]. simpl. destruct H as [[Hown _] H].
+      destruct (H eq_refl) as [H9 _]. now apply own_no9 with n0.
+    - destruct (chan cf a0 b0) as [|m q] eqn:Hc; [constructor|].
+      destruct (w_running (nodes cf b0)) eqn:Ru; [|constructor].
+      pose proof (recv_no9 cf gm a0 b0 m q HK Ru Hc) as H. unfold stt in H.
+      destruct (dba_recv b0 (w_st (nodes cf b0)) a0 m) as [[s' o] e]. exact H.
+  Qed.
+
+  Lemma exec_no9 sched : forall cf, SI cf -> Forall no9 (snd (exec P cf sched)).
+  Proof.
+    induction sched as [|a r IH]; intros cf H; simpl; [constructor|].
+    pose proof (step_no9 cf a H) as E1. destruct (step_SI cf a H) as [H1 _].
+    destruct (step P cf a) as [cf1 e1]. simpl in *.
+    specialize (IH cf1 H1). destruct (exec P cf1 r) as [cf2 e2]. simpl in *.
+    apply Forall_app; split; auto.
+  Qed.
 End Count2.
 
 (* For every well-formed problem (the constraint list of every variable holds exactly the constraints
@@ -818,6 +879,17 @@ Proof.
   - intros n v c k Hin. rewrite Forall_forall in A. exact (A _ Hin).
   - intros n v Hv. destruct (B n) as [Wv _]. apply Wv. exact Hv.
   - intros n v Hv. destruct (B n) as [_ Wn]. apply Wn. exact Hv.
+Qed.
+
+(* the handler-level model M_Dba.v replays postponed messages one level deep; on a well-formed problem
+   a second level is never needed, whatever the schedule - before and after finished() *)
+Theorem dba_nesting_limit_unreached : forall cs ncs dom infinity maxd orc0 sched n,
+  wf_problem cs ncs -> ~ In (EvRaise n 9) (snd (run (dba_proto cs ncs dom infinity maxd orc0) sched)).
+Proof.
+  intros cs ncs dom infinity maxd orc0 sched n Hwf Hin.
+  pose proof (exec_no9 cs ncs dom infinity maxd orc0 (wf_sym cs ncs Hwf) sched _
+                (SI_init cs ncs dom infinity maxd orc0)) as H.
+  rewrite Forall_forall in H. exact (H _ Hin n eq_refl).
 Qed.
 
 (* non-vacuity: a well-formed 2-variable instance (the one of P_Dba.v) with infinity = 0, where every
